@@ -376,7 +376,7 @@ def rule_gcg(S):
         def step(ctx, nd, st):
             if nd['k'] == 'CXXDeleteExpr' or (nd['k'] in CALL_KINDS and nd.get('cq') == 'operator delete'):
                 tgt = f.ch(nd)[0] if nd['k'] == 'CXXDeleteExpr' else call_args(f, nd)[0]
-                sub = subject(term(f, tgt))
+                sub = subject(term(f, tgt, res=True))
                 e = sites.setdefault(short_loc(nd), {'ok': True, 'path': None})
                 if sub is None or (sub, 'below') not in st:
                     e['ok'] = False
@@ -393,7 +393,7 @@ def rule_gcg(S):
 
         def branch(ctx, blk, idx, st):
             if blk.term and 'cond' in blk.term and len(blk.succ) == 2:
-                t = term(f, blk.term['cond'])
+                t = term(f, blk.term['cond'], res=True)
                 if t[0] == 'bin' and t[1] in ('>=', '>', '<', '<='):
                     a, b = t[2], t[3]
                     sa = subject(a)
@@ -420,7 +420,7 @@ def rule_gcg(S):
     ks = []
     for nd in et.all_nodes():
         if is_call(nd, cq=GC + '::set_gc_epoch'):
-            t = term(et, call_args(et, nd)[0])
+            t = term(et, call_args(et, nd)[0], res=True)
             k = None
             if t[0] == 'bin' and t[1] == '-' and t[3][0] == 'const':
                 k = t[3][1]
